@@ -8,7 +8,7 @@ Import ListNotations.
    Result: [0, min j k) if the user's newest secret is still held by the master key (i < k), all k otherwise. *)
 Theorem C04_refresh_chain_window : forall (L : list secret) (mch : list (bool * secret)) (k i j : nat),
   NoDup L -> secs mch = firstn k L -> (i < j <= length L)%nat -> (k <= length L)%nat ->
-  refresh_chain fx_all mch (firstn (j - i) (skipn i L)) =
+  refresh_chain RefreshProofs.fx_all mch (firstn (j - i) (skipn i L)) =
     Some (if (i <? k)%nat then firstn (Nat.min j k) L else firstn k L).
 Proof. exact refresh_chain_window. Qed.
 Print Assumptions C04_refresh_chain_window.
